@@ -5,6 +5,11 @@ import sys
 
 path = sys.argv[1]
 phase = "import"
+import os as _os
+if _os.environ.get("VERIF_LIBPATH"):
+    # the library reached through a sys.path entry added at run time, exactly as given (site.py normalises the
+    # entries of PYTHONPATH at start-up; a path inserted by the program is used as it is)
+    sys.path.insert(0, _os.environ["VERIF_LIBPATH"])
 if len(sys.argv) > 2 and sys.argv[2] == "--script":
     # through the real file entry point
     try:
@@ -14,7 +19,7 @@ if len(sys.argv) > 2 and sys.argv[2] == "--script":
         print(json.dumps({"exc": type(e).__name__, "msg": str(e)[:300], "phase": "compile_script"}))
     sys.exit(0)
 try:
-    from nada_dsl.compiler_frontend import nada_dsl_to_nada_mir
+    from nada_dsl.compiler_frontend import nada_compile
     import os
     sys.path.insert(0, os.path.dirname(os.path.abspath(path)))      # helper modules next to the program
     src = open(path, encoding="utf-8").read()
@@ -23,7 +28,9 @@ try:
     phase = "trace"
     outs = ns["nada_main"]()
     phase = "compile"
-    mir = nada_dsl_to_nada_mir(outs)
+    # through the entry point that produces the MIR TEXT (what compile_script and the command line print), read
+    # back in the order it is written: the order of an object type's fields is part of the type
+    mir = json.loads(nada_compile(outs))
     print(json.dumps({"ok": mir}))
 except Exception as e:      # noqa
     print(json.dumps({"exc": type(e).__name__, "msg": str(e)[:300], "phase": phase}))
